@@ -25,8 +25,8 @@ def inv_heap(h):
         if pos != h.current_size:
             bad.append(f'chunks end at {pos} but current_size is {h.current_size}')
     rel = list(h.released)
-    if rel != sorted(rel) or len(set(rel)) != len(rel):
-        bad.append(f'released list is not strictly sorted: {rel}')
+    if len(set(rel)) != len(rel):
+        bad.append(f'released list holds a location twice: {rel}')
     for r in rel:
         if r not in h.chunks:
             bad.append(f'released entry {r} is not a chunk start')
@@ -42,7 +42,15 @@ def inv_heap(h):
 
 
 class HeapMonitor:
-    """Client-boundary monitor of one Heap: shadow set of live regions + inv_heap after every event."""
+    """Client-boundary monitor of one Heap.
+
+    Boundary layer (needs nothing but alloc/free/max_size): shadow set of live regions; a returned region never overlaps a live one;
+    max_size never under-reports the end of a region handed out; coalescing as a client can observe it - when a contiguous free gap
+    of at least the requested size exists below the highest live region, the allocation does not extend beyond that region (two adjacent
+    free regions that were not merged are exactly what makes such a request miss the gap).
+    White-box layer (when the instance has the chunk table / free list / current_size of the pinned implementation): inv_heap after
+    every event, chunk table vs. shadow, max_size == largest managed range so far.  If those attributes are not there the layer
+    switches itself off and counts `whitebox_unavailable`; the boundary layer still decides."""
 
     def __init__(self, heap, report, track_states=None):
         self.h = heap
@@ -50,25 +58,50 @@ class HeapMonitor:
         self.live = {}            # loc -> size
         self.live_starts = []     # sorted
         self.high = 0
+        self.max_end = 0
         self.events = []          # ('a', size, loc) / ('f', loc)
         self.states = track_states
-        self.stats = dict(allocs=0, frees=0, splits=0, exact_fits=0, appends=0, merges_one=0, merges_both=0, no_merge=0, tail_trims=0, tail_trims_cascade=0)
+        self.whitebox = True
+        self.stats = dict(allocs=0, frees=0, splits=0, exact_fits=0, appends=0, merges_one=0, merges_both=0, no_merge=0, tail_trims=0, tail_trims_cascade=0,
+                          b_append=0, b_reuse_exact=0, b_reuse_split=0, b_free_merge0=0, b_free_merge1=0, b_free_merge2=0, b_free_top=0, b_free_top_cascade=0,
+                          b_gap_rule_checks=0, whitebox_unavailable=0)
+
+    def _wb(self, f, default=None):
+        if not self.whitebox:
+            return default
+        try:
+            return f()
+        except (AttributeError, KeyError, TypeError):
+            self.whitebox = False
+            self.stats['whitebox_unavailable'] += 1
+            return default
+
+    def _gaps(self):
+        """free gaps below the highest live region: list of (start, stop); and the end of the highest live region"""
+        gaps, pos = [], 0
+        for st in self.live_starts:
+            if st > pos:
+                gaps.append((pos, st))
+            pos = max(pos, st + self.live[st])
+        return gaps, pos
 
     def alloc(self, size):
         h = self.h
-        before_chunks = len(h.chunks)
-        before_size = h.current_size
-        before_rel = len(h.released)
+        before = self._wb(lambda: (len(h.chunks), h.current_size, len(h.released)))
+        gaps, top = self._gaps()
         loc = h.alloc_orig(size)
         self.events.append(('a', int(size), int(loc)))
         self.stats['allocs'] += 1
-        if h.current_size > before_size:
-            self.stats['appends'] += 1
-        elif len(h.chunks) > before_chunks:
-            self.stats['splits'] += 1
-        elif len(h.released) < before_rel:
-            self.stats['exact_fits'] += 1
+        after = self._wb(lambda: (len(h.chunks), h.current_size, len(h.released)))
+        if before is not None and after is not None:
+            if after[1] > before[1]:
+                self.stats['appends'] += 1
+            elif after[0] > before[0]:
+                self.stats['splits'] += 1
+            elif after[2] < before[2]:
+                self.stats['exact_fits'] += 1
         loc = int(loc)
+        size = int(size)
         # overlap with a live region?
         i = bisect.bisect_right(self.live_starts, loc)
         if i > 0:
@@ -78,10 +111,26 @@ class HeapMonitor:
         if i < len(self.live_starts) and self.live_starts[i] < loc + size:
             q = self.live_starts[i]
             self.report('allocator-overlap', f'alloc({size}) returned [{loc},{loc + size}), overlapping the live region starting at {q}')
-        if h.chunks.get(loc) != size:
-            self.report('allocator-state', f'alloc({size}) returned {loc} but the chunk table records size {h.chunks.get(loc)}')
-        self.live[loc] = int(size)
+        if loc < 0:
+            self.report('allocator-overlap', f'alloc({size}) returned the negative location {loc}')
+        # coalescing as the client sees it
+        fit = [g for g in gaps if g[1] - g[0] >= size]
+        if fit:
+            self.stats['b_gap_rule_checks'] += 1
+            if loc + size > top:
+                self.report('allocator-coalescing', f'alloc({size}) returned [{loc},{loc + size}) beyond the highest live region (ends at {top}) although the contiguous '
+                            f'free gap [{fit[0][0]},{fit[0][1]}) below it is large enough: its parts were not merged')
+        inside = [g for g in gaps if g[0] <= loc and loc + size <= g[1]]
+        if inside:
+            self.stats['b_reuse_exact' if inside[0][1] - inside[0][0] == size else 'b_reuse_split'] += 1
+        elif loc >= top:
+            self.stats['b_append'] += 1
+        got = self._wb(lambda: h.chunks.get(loc))
+        if self.whitebox and got != size:
+            self.report('allocator-state', f'alloc({size}) returned {loc} but the chunk table records size {got}')
+        self.live[loc] = size
         bisect.insort(self.live_starts, loc)
+        self.max_end = max(self.max_end, loc + size)
         self._after()
         return loc
 
@@ -93,37 +142,54 @@ class HeapMonitor:
             # do not forward an invalid free: the allocator's behaviour is undefined for it
             self.events.append(('f!', loc))
             return
-        nrel, size0 = len(h.released), h.current_size
+        before = self._wb(lambda: (len(h.released), h.current_size))
+        gaps, top = self._gaps()
+        size = self.live[loc]
+        below = any(g[1] == loc for g in gaps)
+        above = any(g[0] == loc + size for g in gaps)
+        if loc + size == top:
+            self.stats['b_free_top'] += 1
+            if below:
+                self.stats['b_free_top_cascade'] += 1
+        else:
+            self.stats[f'b_free_merge{int(below) + int(above)}'] += 1
         h.free_orig(loc)
         self.events.append(('f', loc))
         self.stats['frees'] += 1
-        if h.current_size < size0:
-            self.stats['tail_trims'] += 1
-            if len(h.released) < nrel:
-                self.stats['tail_trims_cascade'] += 1
-        elif len(h.released) == nrel:
-            self.stats['merges_one'] += 1
-        elif len(h.released) < nrel:
-            self.stats['merges_both'] += 1
-        else:
-            self.stats['no_merge'] += 1
+        after = self._wb(lambda: (len(h.released), h.current_size))
+        if before is not None and after is not None:
+            nrel, size0 = before
+            if after[1] < size0:
+                self.stats['tail_trims'] += 1
+                if after[0] < nrel:
+                    self.stats['tail_trims_cascade'] += 1
+            elif after[0] == nrel:
+                self.stats['merges_one'] += 1
+            elif after[0] < nrel:
+                self.stats['merges_both'] += 1
+            else:
+                self.stats['no_merge'] += 1
         del self.live[loc]
         self.live_starts.remove(loc)
         self._after()
 
     def _after(self):
         h = self.h
-        self.high = max(self.high, h.current_size)
-        if h.max_size != self.high:
-            self.report('allocator-highwater', f'max_size is {h.max_size} but the managed range reached {self.high}')
-        for b in inv_heap(h):
+        if h.max_size < self.max_end:
+            self.report('allocator-highwater', f'max_size is {h.max_size} but a region ending at {self.max_end} was handed out')
+        cur = self._wb(lambda: h.current_size)
+        if cur is not None:
+            self.high = max(self.high, cur)
+            if h.max_size != self.high:
+                self.report('allocator-highwater', f'max_size is {h.max_size} but the managed range reached {self.high}')
+        for b in self._wb(lambda: inv_heap(h), []):
             self.report('allocator-invariant', b)
-        relset = set(h.released)
-        used = {s: z for s, z in h.chunks.items() if s not in relset}
-        if used != self.live:
+        used = self._wb(lambda: {s: z for s, z in h.chunks.items() if s not in set(h.released)})
+        if used is not None and used != self.live:
             self.report('allocator-state', f'non-free chunks {sorted(used.items())[:6]} differ from the regions the client holds {sorted(self.live.items())[:6]}')
         if self.states is not None:
-            self.states.add((tuple(sorted(h.chunks.items())), tuple(h.released)))
+            st = self._wb(lambda: (tuple(sorted(h.chunks.items())), tuple(h.released)))
+            self.states.add(st if st is not None else (tuple(sorted(self.live.items())), int(h.max_size)))
 
 
 def monitored_heap_class(simmod, registry, report):
@@ -249,31 +315,52 @@ def inv_memmap(sim, circuit, strip_forks, c_reuse):
     return bad[:8], stats
 
 
-def alloc_free_interleaving(events, sim):
-    """C07 (iv): from the recorded allocator history of SimOps.__init__: no free happens between two allocations of
-    one level (memory released in a level is never handed out again within that level)."""
+def alloc_free_interleaving(events, sim, stats=None):
+    """C07 (iv): from the recorded allocator history of SimOps.__init__: memory released in a level is never handed out again
+    within that level.  Allocation events are attributed to levels by the (location, capacity) the published map records for the
+    output lines of that level's operations (so extra allocations, another order inside the level or lazily executed frees do not
+    matter); a region freed after level L's first allocation and handed out again to an operation of level L is the violation."""
+    import collections
     ops = np.asarray(sim.ops)
-    n_special = 3 + sum(1 for i in range(sim.s_len) if sim.c_locs[sim.ppi_offset + i] >= 0)
-    idx = 0
-    # skip the special/input allocations
-    k = 0
-    while idx < len(events) and k < n_special:
-        if events[idx][0] == 'a':
-            k += 1
-        idx += 1
+    expected = []
+    for a, b in zip(sim.level_starts, sim.level_stops):
+        expected.append(collections.Counter((int(sim.c_locs[int(op[1])]), int(sim.c_caps[int(op[1])])) for op in ops[a:b] if int(op[1]) != sim.tmp_idx))
     bad = []
-    for lv, (a, b) in enumerate(zip(sim.level_starts, sim.level_stops)):
-        need = sum(1 for op in ops[a:b] if int(op[1]) != sim.tmp_idx)
-        got = 0
-        while got < need and idx < len(events):
-            e = events[idx]
-            idx += 1
-            if e[0] == 'a':
-                got += 1
+    live = {}
+    L = -1
+    remaining = collections.Counter()
+    freed = []
+    matched = 0
+
+    def next_nonempty(l):
+        l += 1
+        while l < len(expected) and not expected[l]:
+            l += 1
+        return l
+
+    for e in events:
+        if e[0] == 'a':
+            size, loc = int(e[1]), int(e[2])
+            live[loc] = size
+            key = (loc, size)
+            if remaining.get(key, 0) > 0:
+                pass
             else:
-                if got < need:
-                    bad.append(f'level {lv}: free({e[1]}) executed before the level\'s allocations were complete')
-        # frees that follow belong to this level
-        while idx < len(events) and events[idx][0] != 'a':
-            idx += 1
+                nl = next_nonempty(L)
+                if not +remaining and nl < len(expected) and expected[nl].get(key, 0) > 0:
+                    L, remaining, freed = nl, collections.Counter(expected[nl]), []
+                else:
+                    continue        # not the allocation of an output line of the current / next level (special slot, input slot, padding)
+            remaining[key] -= 1
+            matched += 1
+            for (fl, fs) in freed:
+                if fl < loc + size and loc < fl + fs:
+                    bad.append(f'level {L}: the region [{fl},{fl + fs}) was released after the level\'s allocations began and handed out again as [{loc},{loc + size}) within the level')
+        elif e[0] == 'f':
+            loc = int(e[1])
+            if loc in live:
+                freed.append((loc, live.pop(loc)))
+    if stats is not None:
+        stats['interleaving_matched'] = stats.get('interleaving_matched', 0) + matched
+        stats['interleaving_expected'] = stats.get('interleaving_expected', 0) + sum(sum(c.values()) for c in expected)
     return bad[:4]
